@@ -381,19 +381,13 @@ def exEnv : Env :=
     proposer := fun h r => ((Int.ofNat h + r) % 4).toNat, valid := fun v => v % 4 != 3,
     appValue := fun k => 400 + 4 * k }
 
-/-- a timeout of some other height, delivered while the height is not started -/
-def exStale : Input := .timeout .precommit 7 0
-
-/-- Validator 3, height 0, never started until the last input; every `exStale` makes
-`ProcessTimeout` run the rule loop on the unstarted height. -/
+/-- Validator 3, height 0, never started until the last input. Since cd6cea9 a timeout that does
+not apply (other height, round or step) does nothing at all; a timeout that MATCHES the (not started)
+height, round and step is still acted upon: `ProcessTimeout` does not look at `isHeightStarted`. -/
 def exUndisciplined : List Input :=
-  [ .proposal ⟨0, 0, 0, -1, 8⟩, exStale,                           -- prevote 8 in (0,0)
-    .prevote ⟨0, 0, 0, some 8⟩, .prevote ⟨0, 0, 2, some 8⟩, exStale, -- polka: lock 8, precommit 8
-    .precommit ⟨0, 0, 0, none⟩, .precommit ⟨0, 0, 2, none⟩, exStale, -- 2f+1 precommits: timeout scheduled
-    .timeout .precommit 0 0,                                          -- round 1
-    .proposal ⟨0, 1, 1, -1, 12⟩, exStale,                            -- locked on 8: prevote nil in (0,1)
-    .prevote ⟨0, 1, 0, some 12⟩, .prevote ⟨0, 1, 1, some 12⟩, .prevote ⟨0, 1, 2, some 12⟩, exStale, -- relock 12
-    .start 0 ]                                                        -- back to round 0: prevote nil in (0,0)
+  [ .proposal ⟨0, 0, 0, -1, 8⟩,    -- buffered by the vote counter (height not started: no action)
+    .timeout .propose 0 0,          -- acted upon although the height is not started: prevote nil in (0,0)
+    .start 0 ]                      -- round 0 is (re)started, step propose: line 22 prevotes 8 in (0,0)
 
 /-- a disciplined run in which the validator locks, commits, and goes on to the next height -/
 def exDisciplined : List Input :=
